@@ -30,6 +30,9 @@ class MethodMixin:
             ct = self.engine.method_contract(self, cls, name)
             if ct is not None:
                 return self.apply_contract(ct, recv, args, kwargs, node)
+            ext = C.EXTERNS.get(f"{cls}.{name}")
+            if ext is not None:
+                return ext(self, [recv] + list(args), kwargs)
             if name == "get" and args and isinstance(args[0], str):     # dict-like object (issue)
                 has = self.field_info(cls, "has_" + args[0])
                 val = self.field_read(recv, args[0])
